@@ -996,7 +996,9 @@ func recvCh[T any](
 
 func (broker *Broker) handleSendError(payload sts.Payload, nPartsReceived int) sts.Payload {
 	nErr := 0
-	var n int
+	// Start from what the server reported with its partial-content answer (if
+	// anything); only those leading parts are done, the rest is sent again
+	n := nPartsReceived
 	var err error
 	for {
 		if broker.shouldStopNow() {
